@@ -1,162 +1,24 @@
-// c03w: directed witness for C03 on the REAL code: with hierarchical queues the reclaim action
-// pipelines a task for a leaf queue while the PARENT queue is already at its capability.
-// (reclaim.go:150 guards only by ssn.Preemptive; capacity's PreemptiveFn looks at the leaf only.)
+// c03w: scratch driver for the reclaim regression stream (see reclaim_stream.go, which is
+// moved to harness/cmd/c03 once that package is final).
 package main
 
 import (
 	"fmt"
 	"os"
-
-	v1 "k8s.io/api/core/v1"
-	"k8s.io/apimachinery/pkg/api/resource"
-	metav1 "k8s.io/apimachinery/pkg/apis/meta/v1"
-	"k8s.io/apimachinery/pkg/types"
-	"k8s.io/apimachinery/pkg/util/sets"
-
-	"volcano.sh/apis/pkg/apis/scheduling"
-	"volcano.sh/volcano/pkg/scheduler/actions/reclaim"
-	"volcano.sh/volcano/pkg/scheduler/api"
-	"volcano.sh/volcano/pkg/scheduler/cache"
-	"volcano.sh/volcano/pkg/scheduler/conf"
-	"volcano.sh/volcano/pkg/scheduler/framework"
-	"volcano.sh/volcano/pkg/scheduler/plugins"
-	"volcano.sh/volcano/pkg/scheduler/plugins/capacity"
-	"volcano.sh/volcano/pkg/scheduler/plugins/gang"
-
-	"verif/harness/internal/sched"
-	_ "verif/harness/internal/vh"
 )
 
-func queue(name, parent string, capCPU, desCPU int64) *api.QueueInfo {
-	q := &scheduling.Queue{
-		ObjectMeta: metav1.ObjectMeta{Name: name, UID: types.UID(name)},
-		Spec:       scheduling.QueueSpec{Weight: 1, Parent: parent},
-		Status:     scheduling.QueueStatus{State: scheduling.QueueStateOpen},
-	}
-	if capCPU > 0 {
-		q.Spec.Capability = v1.ResourceList{v1.ResourceCPU: *resource.NewMilliQuantity(capCPU, resource.DecimalSI)}
-	}
-	if desCPU > 0 {
-		q.Spec.Deserved = v1.ResourceList{v1.ResourceCPU: *resource.NewMilliQuantity(desCPU, resource.DecimalSI)}
-	}
-	return api.NewQueueInfo(q)
-}
-
 func main() {
-	snap := &api.ClusterInfo{
-		Jobs: map[api.JobID]*api.JobInfo{}, Nodes: map[string]*api.NodeInfo{},
-		Queues: map[api.QueueID]*api.QueueInfo{}, NamespaceInfo: map[api.NamespaceName]*api.NamespaceInfo{},
-		RevocableNodes: map[string]*api.NodeInfo{},
-		HyperNodes:     api.HyperNodeInfoMap{}, HyperNodesSetByTier: map[int]sets.Set[string]{},
-		RealNodesSet: map[string]sets.Set[string]{}, HyperNodeTierNameMap: api.HyperNodeTierNameMap{},
-		CSINodesStatus: map[string]*api.CSINodeStatusInfo{},
-	}
-	no := false
-	qa := queue("qa", "qp", 0, 0)
-	qa.Queue.Spec.Reclaimable = &no // victims can only come from qc (outside qp's subtree)
-	for _, q := range []*api.QueueInfo{
-		queue("root", "", 0, 0),
-		queue("qp", "root", 10000, 0), // parent: capability cpu 10
-		qa,
-		queue("qb", "qp", 0, 8000),
-		queue("qc", "root", 0, 5000),
-	} {
-		snap.Queues[q.UID] = q
-	}
-	type js struct {
-		id    int64
-		queue string
-		min   int32
-	}
-	for _, j := range []js{{1, "qa", 1}, {2, "qb", 5}, {3, "qc", 1}} {
-		ji := api.NewJobInfo(sched.JobID(j.id))
-		pg := &api.PodGroup{PodGroup: scheduling.PodGroup{
-			ObjectMeta: metav1.ObjectMeta{Name: sched.JobName(j.id), Namespace: "ns", UID: types.UID(sched.JobName(j.id))},
-			Spec:       scheduling.PodGroupSpec{MinMember: j.min, Queue: j.queue, MinTaskMember: map[string]int32{}},
-			Status:     scheduling.PodGroupStatus{Phase: scheduling.PodGroupRunning},
-		}}
-		ji.SetPodGroup(pg)
-		snap.Jobs[ji.UID] = ji
-	}
-	tasks := []sched.TaskSpec{}
-	id := int64(0)
-	add := func(job int64, n int, cpu int64, st int64, pre bool) {
-		for i := 0; i < n; i++ {
-			id++
-			t := sched.TaskSpec{ID: id, Job: job, Role: 1, CPU: cpu, Mem: 1 << 20, Status: st, Preemptable: pre}
-			if st != sched.SPending {
-				t.Node = 1
-			}
-			tasks = append(tasks, t)
-		}
-	}
-	add(1, 6, 1000, sched.SRunning, false) // qa: 6 cpu
-	add(2, 4, 1000, sched.SRunning, false) // qb: 4 cpu
-	add(2, 1, 2000, sched.SPending, false) // qb: wants 2 more
-	pendingID := id
-	add(3, 10, 1000, sched.SRunning, true) // qc: 10 cpu, preemptable, deserved 5
-	tinfo := map[int64]*api.TaskInfo{}
-	for _, t := range tasks {
-		ti := api.NewTaskInfo(t.Pod())
-		tinfo[t.ID] = ti
-		snap.Jobs[ti.Job].AddTaskInfo(ti)
-	}
-	ni := api.NewNodeInfo(sched.NodeSpec{ID: 1, Has: true, CPU: 20000, Mem: 64 << 30, Pods: 110}.Object())
-	for _, t := range tasks {
-		if t.Node == 1 {
-			if err := ni.AddTask(tinfo[t.ID]); err != nil {
-				panic(err)
+	in := []int64{10, 6, 4, 2, 10, 8, 5, 0}
+	got := runReclaimCase(in)
+	fmt.Println("in:", in, "observed:", got)
+	// got = [preemptive, allocatable, placed, evictions, n, (alloc, realcap)*]
+	if got[2] == 1 {
+		for i := 0; i < int(got[4]); i++ {
+			if got[5+2*i] > got[6+2*i] {
+				fmt.Println("WITNESS: a queue of the chain holds more than its realCapability after a reclaim placement")
+				os.Exit(1)
 			}
 		}
-	}
-	snap.Nodes[ni.Name] = ni
-	snap.NodeList = append(snap.NodeList, ni.Name)
-
-	c := &sched.ScriptedCache{SchedulerCache: cache.NewDefaultMockSchedulerCache("verif"), Snap: snap,
-		RefuseBind: map[int64]bool{}, RefuseEvict: map[int64]bool{}}
-	var snapf func() capacity.VerifSnapshot
-	framework.RegisterPluginBuilder(gang.PluginName, gang.New)
-	framework.RegisterPluginBuilder(capacity.PluginName, func(a framework.Arguments) framework.Plugin {
-		p, f := capacity.VerifNew(a)
-		snapf = f
-		return p
-	})
-	opt := func(name string) conf.PluginOption {
-		o := conf.PluginOption{Name: name}
-		plugins.ApplyPluginConfDefaults(&o)
-		return o
-	}
-	co := opt(capacity.PluginName)
-	yes := true
-	co.EnabledHierarchy = &yes
-	tiers := []conf.Tier{{Plugins: []conf.PluginOption{opt(gang.PluginName), co}}}
-	ssn := framework.OpenSession(c, tiers, nil)
-
-	show := func(when string) (float64, float64) {
-		s := snapf()
-		qp := s.Queues["qp"]
-		qb := s.Queues["qb"]
-		fmt.Printf("%s: qp allocated cpu=%v realCapability cpu=%v capability cpu=%v | qb allocated cpu=%v realCapability cpu=%v deserved cpu=%v\n",
-			when, qp.Allocated.MilliCPU, qp.RealCapability.MilliCPU, qp.Capability.MilliCPU, qb.Allocated.MilliCPU, qb.RealCapability.MilliCPU, qb.Deserved.MilliCPU)
-		return qp.Allocated.MilliCPU, qp.RealCapability.MilliCPU
-	}
-	show("session open")
-	pt := ssn.Jobs[sched.JobID(2)].Tasks[api.TaskID(sched.TaskName(pendingID))]
-	qb := ssn.Queues["qb"]
-	fmt.Printf("ssn.Allocatable(qb, t%d) = %v   ssn.Preemptive(qb, [t%d]) = %v\n", pendingID, ssn.Allocatable(qb, pt), pendingID, ssn.Preemptive(qb, []*api.TaskInfo{pt}))
-
-	conf.EnabledActionMap = map[string]bool{"reclaim": true}
-	act := reclaim.New()
-	act.Initialize()
-	act.Execute(ssn)
-	act.UnInitialize()
-
-	alloc, realcap := show("after reclaim")
-	pt = ssn.Jobs[sched.JobID(2)].Tasks[api.TaskID(sched.TaskName(pendingID))]
-	fmt.Printf("t%d status=%v node=%q evictions sent=%v\n", pendingID, pt.Status, pt.NodeName, c.Evicts)
-	if alloc > realcap {
-		fmt.Println("WITNESS: parent queue qp holds more than its realCapability/capability after a reclaim placement")
-		os.Exit(1)
 	}
 	fmt.Println("no violation")
 }
